@@ -721,7 +721,10 @@ def oracle(case, obs):
         # documented exclusion: a NumPy-array old span with a REPEATED label raises KeyError when that label is asked for (the fallback
         # lookup refuses several matches); list / tuple / range old spans never raise for that reason
         excluded = dup_old and case['old']['type'] == 'nparr' and any(old_labs.count(p) > 1 for p in new_labs)
-        if convertible and not excluded:
+        # a fill METHOD of the pandas mixin is outside the statement: pandas itself rejects some requests (a non-monotonic index,
+        # limit / tolerance it cannot apply, ...) and that exception passes through
+        by_method = cls in PANDAS and any(_var_method(case, n) is not None for n in names)
+        if convertible and not excluded and not by_method:
             bad(site, 'unexpected-' + obs['out'][1], 'reindex raised %s although every fill value fits its variable' % obs['out'][1])
         return fails
     if not obs['same_class']:
